@@ -420,6 +420,7 @@ func disableNoDelay(conn net.Conn) {
 }
 
 func (p *pipe) _background() {
+	vhook("pipe.bg.start", p, 0, 0)
 	p.conn.SetDeadline(time.Time{})
 	if p.noNoDelay {
 		disableNoDelay(p.conn)
@@ -493,6 +494,7 @@ func (p *pipe) _background() {
 	}
 	<-p.close
 	atomic.StoreInt32(&p.state, 4)
+	vhook("pipe.bg.end", p, 0, 0)
 }
 
 func (p *pipe) _backgroundWrite() (err error) {
@@ -1095,6 +1097,7 @@ func (p *pipe) Do(ctx context.Context, cmd Completed) (resp RedisResult) {
 		}
 	}
 	waits := p.incrWaits() // if this is 1, and the background worker is not started, no need to queue
+	vhook("pipe.enter", p, int(waits), 0)
 	state := atomic.LoadInt32(&p.state)
 
 	if state == 1 {
@@ -1203,6 +1206,7 @@ func (p *pipe) DoMulti(ctx context.Context, multi ...Completed) *redisresults {
 	}
 
 	waits := p.incrWaits() // if this is 1, and the background worker is not started, no need to queue
+	vhook("pipe.enter", p, int(waits), 0)
 	state := atomic.LoadInt32(&p.state)
 
 	if state == 1 {
@@ -1887,10 +1891,12 @@ func (p *pipe) Error() error {
 
 func (p *pipe) Close() {
 	p.error.CompareAndSwap(nil, errClosing)
+	vhook("pipe.close.begin", p, 0, 0)
 	block := atomic.AddInt32(&p.blcksig, 1)
 	waits := p.incrWaits()
 	stopping1 := atomic.CompareAndSwapInt32(&p.state, 0, 2)
 	stopping2 := atomic.CompareAndSwapInt32(&p.state, 1, 2)
+	vhook("pipe.close.cas", p, int(waits), 0)
 	if p.queue != nil {
 		if stopping1 && waits == 1 { // make sure there is no sync read
 			p.background()
